@@ -64,6 +64,12 @@ FIXED = [
      'warping_path_fast([0,0],[1,0,2.5],psi=1) = [(0,1)] (does not reach the relaxed corner)', None),
     ('F26', 'C06', 'fix: square distance matrix for a block that selects no pair raised IndexError',
      'distance_matrix(series, block=((0,1),(0,1))) (no pair selected, square form) raised IndexError', None),
+    ('F27', 'C08', 'fix: only_triu in the affinity warping-paths kernels wrote past the row when l1 > l2',
+     'heap-buffer-overflow in dtw_warping_paths_affinity_ndim for l1=4, l2=2, only_triu', None),
+    ('F28', 'C08', 'fix: dtw_dba_ptrs sized the warping-paths buffer for the longest series only',
+     'heap-buffer-overflow in dtw_dba_ptrs for t=4, lengths {3,4}, window=1', None),
+    ('F29', 'C08', 'fix: psi_2b larger than the rolling buffer wrote past the first row in dtw.distance / dtw_distance',
+     'heap-buffer-overflow in dtw_distance (IndexError in Python) for l1=l2=6, window=1, psi_2b=6', None),
 ]
 
 OPEN = [
